@@ -123,6 +123,17 @@ CLAIMED['C10'] = dict(
     note='Trusted: contracts of instantiate / alias_instance_export / set_instantiation_argument / export (C06 effect postconditions), `<:` uninterpreted (C07), are_semver_compatible = track relation (C15), M2S, z3. 4 plugs and larger sockets are outside the bound.',
     design='DESIGN.md section 3 / C10')
 
+CLAIMED['C16'] = dict(
+    technique='relational (2-safety) symbolic execution of rustc MIR (M2S): every std HashMap/HashSet iteration is executed in every order of its entries and z3 refutes "two orders, one input, different observable result"; counterexamples replayed in fresh processes (fresh hash seeds)',
+    text='Bounded, for the hash-ordered maps on the composition path: CompositionGraph::define_type (edge list of the graph, <= 2/3 defined types, every RI pre-state), '
+         'TypeAggregator::aggregate (imports and redirect function, <= 2/3 redirects), find_semver_compatible_interface (<= 3/4 interfaces, one id per track), '
+         'AstResolver::world_include (result and diagnostic), CompositionGraph::imports (listing), spread_instantiation_arg (order of added arguments): the observable '
+         'result is the same for all iteration orders. A census of the MIR of the four library crates lists every other hash iteration site with the reason it cannot '
+         'influence an output order (retain with a pure predicate; keyed re-insertion); an unlisted site makes the check inconclusive. Whole-pipeline byte equality, '
+         'printing and the remaining diagnostics are observed on the replayed scripts only.',
+    note='Trusted: M2S, z3, RI of C06 as pre-state of define_type/imports, naming invariant of C09 for aggregate, the census regex over call sites (new iterator adaptors of HashMap would need a new pattern).',
+    design='DESIGN.md section 3 / C16')
+
 NOT_APPLICABLE = {
  'C01': 'validity is defined by an external 60 kLoC validator over whole-pipeline output; neither it nor the encoder can be executed symbolically here (DESIGN.md section 4)',
  'C05': 'needs wit-component as reference encoder and the validator subtype relation as comparison; out of reach of symbolic execution (DESIGN.md section 4)',
